@@ -124,6 +124,21 @@ class GeometryScenario(BaseScenario):
     # ---- the oracle
     def check(self, sim, ws, obj, where, stored=False, failed=None):
         """failed: the operation raised -- it may have been applied partly; whatever survives must be mutually consistent."""
+        try:
+            return self._check(sim, ws, obj, where, stored, failed)
+        except Violation:
+            raise
+        except Exception as err:  # pylint: disable=broad-except
+            # a public getter of the object or of one of its data refuses to answer (the library's own length check, usually)
+            import traceback
+
+            at = traceback.extract_tb(err.__traceback__)[-1].name
+            discr = {"where": where.split(":")[0], "cls": obj.cls, "exc": type(err).__name__}
+            if failed:
+                discr["after_failed_call"] = failed
+            raise Violation("C07", "unreadable", f"{where}: reading geometry / values through the public getters raised {type(err).__name__}: {str(err)[:120]} (in {at})", discr) from None
+
+    def _check(self, sim, ws, obj, where, stored=False, failed=None):
         sim.oracle("alignment")
         ent = self.ent(ws, obj)
         discr = {"where": where.split(":")[0], "cls": obj.cls}
